@@ -50,6 +50,10 @@ func vfPeerCacheRun(sc vfScript) []map[string]any {
 	c.Spawn("upd", func() {
 		for _, o := range ops {
 			v := int(o.(float64))
+			if v < 0 { // the peer leaves the topic (advertise expired, unregistered)
+				pc.RemoveFromCache(ctx, topic, pid)
+				continue
+			}
 			pc.UpdatePeer(topic, peer.AddrInfo{ID: pid, Addrs: addrs[:v]})
 		}
 	})
